@@ -38,7 +38,7 @@ def gen_case(rng, tier, adaptive=False):
             continue
         vectorize = rng.random() < 0.5
         dt = rng.choice([F(1), F(1, 2)])
-        steps = rng.choice([3, 4, 5]) if not adaptive else rng.choice([3, 5, 9])
+        steps = rng.choice([3, 4, 4, 5, 6]) if not adaptive else rng.choice([3, 5, 9])
         inputs, ext, colvec = {}, [], False
         for _k in range(rng.randint(1, 2)):
             p = rng.choice(tg)
@@ -67,6 +67,8 @@ def gen_case(rng, tier, adaptive=False):
                 "ext_inputs": ext, "style": {}, "in_place": rng.random() < 0.5, "adaptive": adaptive}
         if not adaptive and not vectorize and rng.random() < 0.3:
             case["run"]["backend"] = "jax"
+        if not adaptive and steps % 2 == 0 and rng.random() < 0.5:
+            case["run"]["dts"] = C.q2s(dt * 2)        # sampling step = 2 x step: the input sample of step k must still drive step k
         if adaptive:
             # func(t, y) probes: get_run_func places N samples on linspace(0, N*dt, N)
             n0 = len(ext[0]["samples"])
@@ -203,7 +205,7 @@ def check(tier, seed, replay=None):
         if "crash" in im:
             raise C.HarnessError("harness child crashed: " + str(im)[:800])
         multi = len(case["ext_inputs"]) > len(case["run"]["inputs"]) or len({x["tgt"] for x in case["ext_inputs"]}) < len(case["ext_inputs"])
-        rep.count(("A-" if case.get("adaptive") else "F-") + case["run"]["solver"] + ("-vec" if case["run"]["vectorize"] else "") + ("-jax" if case["run"].get("backend") == "jax" else ""), json.dumps(case, sort_keys=True), nontrivial=multi)
+        rep.count(("A-" if case.get("adaptive") else "F-") + case["run"]["solver"] + ("-vec" if case["run"]["vectorize"] else "") + ("-jax" if case["run"].get("backend") == "jax" else "") + ("-sampling2x" if case["run"].get("dts") else ""), json.dumps(case, sort_keys=True), nontrivial=multi)
         if not case.get("adaptive"):
             mr = drv.ask(N.model_traj_request(case, orc["flat"]))
             if mr.get("rows") != orc["rows"]:
